@@ -108,4 +108,18 @@ var propSpecs = []PropSpec{
 		NotDecided:  "which strings are reported (language of the recogniser), message texts, the column arithmetic of rule_glob",
 		Assumptions: commonAssumptions,
 	},
+	{
+		ID:          "C19",
+		Rules:       []string{"C19.EQ", "C19.EXPR", "C02.MAP"},
+		Explanation: "Decides the structural clauses of the matrix checks: (EQ) every Equals method of a raw YAML value with a container field compares the sizes of both sides, so the one-sided iteration is symmetric and the duplicate verdict cannot depend on the order of the values; (EXPR) isYAMLValueSubset first accepts an exclude value written as an expression, each of its negative results is control-dependent on the candidate value being a mapping, a sequence or a string without ${{ }}, the duplicate report is guarded by the row having literal values and nothing is checked when the matrix itself is an expression; (MAP, shared with C02) no map iteration in rule_matrix.go/ast.go reaches a diagnostic or a result in iteration order.",
+		NotDecided:  "the recursive subset/equality semantics themselves (which values are considered equal or contained) and the candidate set computed from include entries",
+		Assumptions: commonAssumptions,
+	},
+	{
+		ID:          "C06",
+		Rules:       []string{"C06.ANY", "C06.ASSIGN", "C06.LOOSE", "C06.OPEN", "C06.CMP"},
+		Explanation: "Monotonicity in the type environment is relational; decided are its local necessary conditions: (ANY) for every chain of type tests on an ExprType value in the semantic checker and the expression rule from which some outcome reaches a diagnostic, either AnyType is one of the tested types and its own outcome is free of diagnostics, or only listed specific types are diagnosed and the fall-through is free of them; (ASSIGN) every Assignable method returns true for an AnyType argument and every Merge has an outcome yielding AnyType; (LOOSE) when the merged type of a matrix include expression is not an object the matrix object is opened.",
+		NotDecided:  "that a more precise type never yields fewer diagnostics downstream (relational over all expressions and environments); function-signature overload resolution",
+		Assumptions: commonAssumptions,
+	},
 }
